@@ -25,6 +25,9 @@ type RemoteSigner struct {
 
 	Calls [][]byte
 	Sigs  [][]byte
+
+	// OnSign, when set, runs while the signer is "working" (after the call arrived, before the signature is handed back).
+	OnSign func()
 }
 
 // SpecOf returns the KeySpec of a pool key kind (zero value if unsupported).
@@ -85,6 +88,9 @@ func (s *RemoteSigner) Sign(payload []byte) ([]byte, []*x509.Certificate, error)
 		sig = nil
 	}
 	s.Sigs = append(s.Sigs, sig)
+	if s.OnSign != nil {
+		s.OnSign()
+	}
 	return sig, s.Chain, nil
 }
 
